@@ -26,15 +26,23 @@ res = {'seed': '%s/patch%s' % (out, n), 'tests': tests}
 clean()
 r = sh('git apply %s' % demo)
 res['demo_applies'] = r.returncode == 0
-flt = tests[0] if tests else ''
-r = sh('cargo test --offline --lib %s 2>&1 | tail -15' % flt)
-res['unchanged_plus_demo'] = 'test result: ok' in r.stdout and ' 0 passed' not in r.stdout
-res['unchanged_plus_demo_tail'] = r.stdout[-600:]
+# every demonstration test must pass on the unchanged tree; with the patch at least one of them must fail
+oks, tails = [], []
+for flt in tests or ['']:
+    r = sh('cargo test --offline --lib %s 2>&1 | tail -15' % flt)
+    oks.append('test result: ok' in r.stdout and ' 0 passed' not in r.stdout)
+    tails.append(r.stdout[-400:])
+res['unchanged_plus_demo'] = bool(oks) and all(oks)
+res['unchanged_plus_demo_tail'] = '\n'.join(tails)[-1200:]
 r = sh('git apply %s' % patch)
 res['patch_applies_on_demo'] = r.returncode == 0
-r = sh('cargo test --offline --lib %s 2>&1 | tail -40' % flt)
-res['patch_plus_demo_fails'] = 'test result: FAILED' in r.stdout or 'panicked' in r.stdout
-res['patch_plus_demo_tail'] = r.stdout[-1500:]
+fails, tails = [], []
+for flt in tests or ['']:
+    r = sh('cargo test --offline --lib %s 2>&1 | tail -40' % flt)
+    fails.append('test result: FAILED' in r.stdout or 'panicked' in r.stdout)
+    tails.append(r.stdout[-900:])
+res['patch_plus_demo_fails'] = any(fails)
+res['patch_plus_demo_tail'] = '\n'.join(x for x, f in zip(tails, fails) if f)[-1800:]
 clean()
 r = sh('git apply %s' % patch)
 res['patch_applies_alone'] = r.returncode == 0
